@@ -4,7 +4,7 @@ under /tmp/seed/Cxx/OUT and from the detection results recorded in scripts/seed_
 import json, os, shutil, sys
 
 V = os.path.dirname(os.path.dirname(os.path.abspath(__file__)))
-SRC = "/tmp/seed"
+SRC = "/tmp/seedout"
 
 DESC = {
  "C01-A": ("log.go raftLog.slice: the early return for a size-truncated read from Storage is removed; a size-limited query that crosses the stable/unstable boundary returns entries with a hole", "a finite MaxCommittedSizePerReady or MaxSizePerMsg, a large stable entry followed by a small unstable one, pagination lagging behind", "slice-short-read"),
@@ -59,7 +59,7 @@ os.makedirs(out, exist_ok=True)
 n = 0
 for sid, (what, needs, family) in sorted(DESC.items()):
     c, v = sid.split("-")
-    src = os.path.join(SRC, c, "OUT")
+    src = os.path.join(SRC, c)
     d = os.path.join(out, sid)
     if os.path.exists(os.path.join(src, v + ".patch.diff")):
         os.makedirs(d, exist_ok=True)
